@@ -759,6 +759,53 @@ func analyzeBounds(p *core.Prog, f *core.Func) []boundsSite {
 				ok, why = true, "full slice"
 			}
 			sites = append(sites, boundsSite{Fn: f, Expr: x, Base: x.X, Kind: "slice", OK: ok, Reason: why})
+		case *ast.CallExpr:
+			// conversion of a slice to an array (or array pointer): panics when the slice is shorter than the array
+			if len(x.Args) != 1 {
+				return true
+			}
+			tv, isT := info.Types[x.Fun]
+			if !isT || !tv.IsType() {
+				return true
+			}
+			var at *types.Array
+			switch u := tv.Type.Underlying().(type) {
+			case *types.Array:
+				at = u
+			case *types.Pointer:
+				at, _ = u.Elem().Underlying().(*types.Array)
+			}
+			if at == nil {
+				return true
+			}
+			st := info.TypeOf(x.Args[0])
+			if st == nil {
+				return true
+			}
+			if _, isSl := st.Underlying().(*types.Slice); !isSl {
+				return true
+			}
+			n := g.NodeOf(x.Pos())
+			base := core.Unparen(x.Args[0])
+			ok, why := true, fmt.Sprintf("len(%s) >= %d is known here", core.ExprStr(base), at.Len())
+			have := minLen(n, base)
+			// buf[a:b] with constant bounds has exactly b-a elements (the slice expression is a site of its own)
+			if se, isSe := base.(*ast.SliceExpr); isSe && se.High != nil {
+				if hi, okH := core.ConstInt(info, se.High); okH {
+					var lo int64
+					okL := se.Low == nil
+					if se.Low != nil {
+						lo, okL = core.ConstInt(info, se.Low)
+					}
+					if okL && hi-lo > have {
+						have = hi - lo
+					}
+				}
+			}
+			if at.Len() > 0 && have < at.Len() {
+				ok, why = false, fmt.Sprintf("conversion of the slice %s to an array of %d elements without a dominating guard len >= %d (a shorter slice panics)", core.ExprStr(base), at.Len(), at.Len())
+			}
+			sites = append(sites, boundsSite{Fn: f, Expr: x, Base: x.Args[0], Kind: "convert", OK: ok, Reason: why})
 		}
 		return true
 	})
